@@ -148,7 +148,9 @@ func (e *ReduceExpr) Eval(ctx context.Context, local Scope) (_ Value, err error)
 		if err != nil {
 			return nil, WrapContextErr(err, e, local)
 		}
-		for i := s.Enumerator(); i.MoveNext(); {
+		// Walk the set in its canonical order: floating-point accumulation depends on the order of
+		// the addends, and the set's own order depends on the process's hash seeds.
+		for i := OrderedValueEnumerator(s.Enumerator(), ValueLess); i.MoveNext(); {
 			f, err := e.f.Eval(ctx, local)
 			if err != nil {
 				return nil, WrapContextErr(err, e, local)
